@@ -9,7 +9,10 @@ if ! git apply "$d/patch.diff" 2>/dev/null; then
 fi
 cd /verif
 for p in "$@"; do
+  # the evidence file must describe the unchanged tree: keep the clean one aside while the change is applied
+  cp "evidence/$p.json" "build/evidence_$p.keep" 2>/dev/null
   ./check "$p" --tier quick 2>&1 | grep -E "^(OK|VIOLATION|KNOWN)" | cut -c1-220
+  [ -f "build/evidence_$p.keep" ] && mv "build/evidence_$p.keep" "evidence/$p.json"
 done
 git -C /repo checkout -- . ; git -C /repo clean -fdq
 ./check prepare >/dev/null 2>&1
